@@ -154,8 +154,8 @@ pub fn generate(em: &mut Emitter, seed: u64, thorough: bool) {
         // injectors whose effect the caller observes afterwards through the advice stack
         let (tail, observe) = match rng.below(4) {
             0 => ("", ""),
-            1 => (" push.3.0.7.0 adv.push_u64div", " adv_push.2 drop drop dropw"),
-            2 => (" push.9.0.4.0 emit.5 adv.push_u64div trace.2", " adv_push.1 drop dropw"),
+            1 => (" push.3.0.7.0 adv.push_u64div", " adv_push.2 add movdn.4 dropw"),
+            2 => (" push.9.0.4.0 emit.5 adv.push_u64div trace.2", " adv_push.1 movdn.4 dropw"),
             _ => (" trace.9", ""),
         };
         let body = format!("{}{}", body, tail);
